@@ -57,9 +57,16 @@ def consumers_of_result(body, v, call_bb, depth=0):
     dest = t["dest"]
     if dest["p"]:
         return [("bad", "result stored into a projection")]
-    dl = dest["l"]
+    return consumers_of_local(body, v, dest["l"], depth, set())
+
+
+def consumers_of_local(body, v, dl, depth, seen):
+    """The same classification for a Result held in local `dl`; plain moves into another local are followed."""
     if dl == 0:
         return [("return",)]
+    if dl in seen:
+        return []
+    seen.add(dl)
     out = []
     # uses of dl
     for bi, b in enumerate(body.blocks):
@@ -79,9 +86,11 @@ def consumers_of_result(body, v, call_bb, depth=0):
             elif rv["k"] == "use" and rv["op"]["k"] in ("copy", "move") and rv["op"]["place"]["l"] == dl and not rv["op"]["place"]["p"]:
                 if s["place"]["l"] == 0 and not s["place"]["p"]:
                     out.append(("return",))
-                else:
-                    # moved into another local: follow once
+                elif s["place"]["p"] or len(seen) > 6:
                     out.append(("moved", s["place"]["l"]))
+                else:
+                    # moved into another local (a binding, or the return slot of an inlined helper): follow it
+                    out.extend(consumers_of_local(body, v, s["place"]["l"], depth, seen))
         t2 = b["term"]
         if t2["k"] == "call":
             uses = [a for a in t2["args"] if a["k"] in ("copy", "move") and a["place"]["l"] == dl and not a["place"]["p"]]
